@@ -65,8 +65,9 @@ pub fn catalogue() -> Vec<(String, Box<dyn Fn() -> Result<Vec<u8>, String> + Sen
         use write_fonts::tables::layout::{Lookup, LookupFlag};
         let lookups: Vec<SubstitutionLookup> = (0..24u16)
             .map(|k| {
-                let glyphs: Vec<font_types::GlyphId16> = (0..750u16).map(|i| font_types::GlyphId16::new(10 + 2 * i)).collect();
-                let subst: Vec<font_types::GlyphId16> = (0..750u16).map(|i| font_types::GlyphId16::new(3000 + (i * 7 + k * 13) % 2000)).collect();
+                // (the coverage is the same object for all lookups: what counts is 3000 bytes of substitutes per lookup)
+                let glyphs: Vec<font_types::GlyphId16> = (0..1500u16).map(|i| font_types::GlyphId16::new(10 + 2 * i)).collect();
+                let subst: Vec<font_types::GlyphId16> = (0..1500u16).map(|i| font_types::GlyphId16::new(4000 + (i * 7 + k * 13) % 2000)).collect();
                 SubstitutionLookup::Single(Lookup::new(LookupFlag::empty(), vec![SingleSubst::format_2(glyphs.into_iter().collect(), subst)]))
             })
             .collect();
